@@ -43,8 +43,8 @@ type HeaderSpec struct {
 // SignerSpec: Mode none | key | addr-only (address without public key: not representable on the wire).
 type SignerSpec struct {
 	Mode     string `json:"mode"`
-	Key      string `json:"key,omitempty"`      // label of the deterministic key
-	KeyType  string `json:"key_type,omitempty"` // ed25519 | secp256k1
+	Key      string `json:"key,omitempty"`       // label of the deterministic key
+	KeyType  string `json:"key_type,omitempty"`  // ed25519 | secp256k1
 	AddrMode string `json:"addr_mode,omitempty"` // derived | bytes
 	Addr     []byte `json:"addr"`
 }
@@ -73,6 +73,9 @@ type DataSpec struct {
 	HasMeta bool     `json:"has_meta"`
 	Meta    MetaSpec `json:"meta"`
 	Txs     [][]byte `json:"txs"`
+	// Many > len(Txs): the list is Txs repeated in a cycle until it has Many entries (tens of thousands of small
+	// transactions from a short description).
+	Many int `json:"many,omitempty"`
 }
 
 type SignedDataSpec struct {
@@ -247,6 +250,13 @@ func buildTxs(in [][]byte) types.Txs {
 
 func (s DataSpec) Build() *types.Data {
 	d := &types.Data{Txs: buildTxs(s.Txs)}
+	if n := len(s.Txs); n > 0 && s.Many > n {
+		all := make(types.Txs, s.Many)
+		for i := range all {
+			all[i] = d.Txs[i%n]
+		}
+		d.Txs = all
+	}
 	if s.HasMeta {
 		d.Metadata = s.Meta.Build()
 	}
@@ -617,6 +627,10 @@ func genTxs(t *rapid.T) [][]byte {
 
 func genDataSpec(t *rapid.T) DataSpec {
 	d := DataSpec{Txs: genTxs(t)}
+	if len(d.Txs) > 0 && len(d.Txs) <= 5 && rapid.Uint64().Draw(t, "many?")%uint64(world.Scale(600, 250)) == 97 { // (a full-width draw: IntRange favours its bounds)
+		// a block of small transactions: more of them than fit 16 bits
+		d.Many = rapid.SampledFrom([]int{65535, 65536, 65537, 70001, 131073}).Draw(t, "many")
+	}
 	if rapid.IntRange(0, 3).Draw(t, "meta?") != 0 {
 		d.HasMeta = true
 		d.Meta = genMetaSpec(t)
